@@ -701,8 +701,10 @@ def fact_to_json(f):
 PTR_SYMS = ["local_d", "hidden_d", "hidden_f"]
 
 
-def ptr_case(rec, out, got=True):
-    return {"kind": "ptr", "offs": list(rec["offs"]), "secodd": bool(rec["secodd"]), "relr": bool(rec["relr"]),
+def ptr_case(rec, out, got=True, alias=False):
+    # alias: the pointer fields name their (global) targets through symbol assignments `al_X = X` (--defsym): an alias of
+    # an address-valued symbol is address-valued - the place needs the same relative relocation as a direct reference
+    return {"kind": "ptr", "alias": bool(alias), "offs": list(rec["offs"]), "secodd": bool(rec["secodd"]), "relr": bool(rec["relr"]),
             "aligned": bool(rec.get("aligned", False)),
             "out": out, "got": got, "sym": "hidden_d", "ref": "abs64", "relax": False,
             "alloc_relr": rec.get("alloc_relr"), "write_relr": rec.get("write_relr"),
@@ -710,7 +712,7 @@ def ptr_case(rec, out, got=True):
 
 
 def ptr_name(c):
-    return f"ptr-{c['out']}-o{'_'.join(map(str, c['offs']))}-odd{int(c['secodd'])}-al{int(c.get('aligned', False))}-r{int(c['relr'])}-g{int(c['got'])}"
+    return f"ptr-{c['out']}-o{'_'.join(map(str, c['offs']))}-odd{int(c['secodd'])}-al{int(c.get('aligned', False))}-r{int(c['relr'])}-g{int(c['got'])}-a{int(c.get('alias', False))}"
 
 
 def ptr_source(c):
@@ -732,7 +734,8 @@ l_d: .quad {IDS['l_d']}, {IDS['l_d'] ^ 0xffff}
         A = 8 if SYMS[k]["cls"] == "data" else 0
         if off > pos:
             data += f"    .skip {off - pos}, 0x5a\n"
-        data += f"    .quad {s}+{A}\n"
+        ref = f"al_{s}" if (c.get("alias") and k != "local_d") else s
+        data += f"    .quad {ref}+{A}\n"
         pos = off + 8
         body += f"    mov site+{off}(%rip), %rax\n"
         if SYMS[k]["cls"] == "data":
@@ -786,6 +789,8 @@ def ptr_build(c, d, tb):
 
 def ptr_link(c, objs, d, tb, linker="wild"):
     out = "staticpie" if c["out"] == "staticpie-libc" else c["out"]
+    if c.get("alias"):
+        c = dict(c, opts=list(c.get("opts", [])) + [f"--defsym=al_{SYMS[k]['sym']}={SYMS[k]['sym']}" for k in PTR_SYMS if k != "local_d"])
     case = {"sym": "hidden_d", "ref": "abs64", "out": out, "relr": c["relr"], "relax": False,
             "opts": c.get("opts", [])}
     if c["out"] == "staticpie":            # bare static PIE: observed statically only
